@@ -7,7 +7,7 @@ import "pgregory.net/rapid"
 func Gen(store string) func(t *rapid.T) *Case {
 	return func(t *rapid.T) *Case {
 		c := &Case{Store: store, ErrHandler: rapid.IntRange(0, 4).Draw(t, "eh") != 0, SetLater: rapid.IntRange(0, 3).Draw(t, "later") == 0,
-			Handlers: rapid.IntRange(1, 3).Draw(t, "handlers"), Async: rapid.Bool().Draw(t, "async"), UseCtx: rapid.Bool().Draw(t, "usectx"), Notify: rapid.IntRange(0, 2).Draw(t, "notify") == 0, ReplaySub: rapid.IntRange(0, 2).Draw(t, "replaySub") == 0, Obs: rapid.IntRange(0, 2).Draw(t, "obs") == 0}
+			Handlers: rapid.IntRange(1, 3).Draw(t, "handlers"), Async: rapid.Bool().Draw(t, "async"), UseCtx: rapid.Bool().Draw(t, "usectx"), Notify: rapid.IntRange(0, 2).Draw(t, "notify") == 0, ReplaySub: rapid.IntRange(0, 2).Draw(t, "replaySub") == 0, Obs: rapid.IntRange(0, 2).Draw(t, "obs") == 0, ViaAny: rapid.IntRange(0, 2).Draw(t, "viaAny") == 0}
 		n := rapid.IntRange(1, 30).Draw(t, "n")
 		kinds := []string{"ok", "ok", "ok", "badchan", "badfunc", "badnan", "badmarshal", "reject", "reject", "timeout", "slowok", "lostack", "dynok", "dynok", "dynbad", "dynbadmap", "dynreject"}
 		failHeavy := rapid.Bool().Draw(t, "failHeavy")
